@@ -71,6 +71,10 @@ inductive Hdr where
   | secs (x : Int)          -- delay-seconds (anything `float()` parses to a finite number)
   | date (delta : Int)      -- an HTTP-date; `delta = when - now` at the moment the handler runs
   | garbage                 -- neither: parsed to None — and the details are NOT consulted
+  | otherCase (x : Int)     -- delay-seconds sent under another spelling (`retry-after`, as HTTP/2 and
+                            -- proxies do): `errors.check_response` stores `dict(response.headers)`, a
+                            -- case-SENSITIVE dict, and `api.request` looks up "Retry-After": not found
+                            -- (finding F4) — treated exactly like an absent header
   | overflow                -- `float()` gives ±inf ("inf", "1e999"): OverflowError is caught (F2, fixed in
                             -- ae1ab5d), the date parse fails too: None, like garbage
   deriving DecidableEq, Repr, Inhabited
@@ -106,6 +110,15 @@ def truncSec (x : Int) : Int :=
 /-- `math.ceil(x)` on a value given in ticks: whole seconds upwards, back in ticks. -/
 def ceilSec (x : Int) : Int := -(((-x) / tickPerSec) * tickPerSec)
 
+/-- `details.retryAfterSeconds` (the old style): truthiness of the raw value (0 counts as absent),
+    then `int(..)`; details exist only when the body was a `Status` JSON. -/
+def detailsRA (r : Resp) : Option Int :=
+  if r.payload = .statusJson then
+    match r.detRA with
+    | some d => if d ≠ 0 then some (truncSec d) else none
+    | none => none
+  else none
+
 /-- The `retry_after` of a 429: the header first (any non-empty string is truthy, "0" included):
     delay-seconds truncated, an HTTP-date as `max(0, ceil(when - now))`, anything else None;
     only without a header `details.retryAfterSeconds` (truthy, so 0 counts as absent; details exist
@@ -116,10 +129,21 @@ def retryAfter (r : Resp) : Option Int :=
   | .date d => some (if ceilSec d < 0 then 0 else ceilSec d)
   | .garbage => none
   | .overflow => none
+  | .absent | .otherCase _ => detailsRA r
+
+/-- What the SERVER asked for (the specification side; never used by `run`): the delay-seconds
+    as sent (fractions included, under any spelling of the header name), the time to the HTTP-date,
+    or — without a usable header — the body's `retryAfterSeconds`. -/
+def requested (r : Resp) : Option Int :=
+  match r.hdr with
+  | .secs h => some h
+  | .otherCase h => some h
+  | .date d => some (if d < 0 then 0 else d)
+  | .garbage | .overflow => none
   | .absent =>
     if r.payload = .statusJson then
       match r.detRA with
-      | some d => if truncSec d ≠ 0 then some (truncSec d) else none
+      | some d => if d ≠ 0 then some d else none
       | none => none
     else none
 
@@ -167,7 +191,9 @@ structure Run where
   deriving DecidableEq, Repr, Inhabited
 
 /-- Backoff configuration as the loop sees it: the `i`-th element of the iteration, `none` once
-    exhausted (`itertools.repeat(None)`). Finite lists, scalars and generators are all of this form. -/
+    exhausted (`itertools.repeat(None)`). Finite lists/tuples, scalars and RE-ITERABLE objects are of this
+    form (every request iterates from index 0). A one-shot generator object is consumed across requests:
+    excluded (the property quantifies over re-iterable configurations; see ASSUMPTIONS). -/
 abbrev Backoffs := Nat → Option Int
 
 def ofList (l : List Int) : Backoffs := fun i => l[i]?
